@@ -37,7 +37,7 @@ def dispatch (toks : List String) : String :=
       if cmd.startsWith "log." then logCmd toks
       else if cmd.startsWith "bloom." || cmd.startsWith "filter." then bloomCmd toks
       else if cmd.startsWith "key." || cmd.startsWith "bytes." || cmd.startsWith "block." || cmd.startsWith "table." || cmd.startsWith "lookup." then tableCmd toks
-      else if cmd.startsWith "merge." || cmd.startsWith "dbiter." then iterCmd toks
+      else if cmd.startsWith "merge." || cmd.startsWith "dbiter." || cmd.startsWith "level." then iterCmd toks
       else if cmd == "lsm.potential" then potentialCmd toks
       else if cmd.startsWith "lsm." then lsmCmd toks
       else if cmd.startsWith "dur." then durCmd toks
